@@ -72,6 +72,14 @@ CHECKS = {
              "column-permuted, extra-column and dtype-variant frames must be bit-identical to the plain frame, which in turn "
              "is re-run by the model.",
         ref='§6 C10', technique='Lean 4 proof (index/layout not read by the model) + metamorphic check on the real code tied to the model'),
+    'C14': dict(
+        text="Lean theorems on the stage machine (ten calls on one chunk, deterministic kernels): from the fresh chunk every "
+             "history of any length ends in one of the four canonical states of the slices-groups-layers run (so tables, ids, "
+             "messages are canonical), a refused call changes nothing and has a documented reason, nothing but AmpycloudError "
+             "is raised, repeating an accepted call is idempotent, completed stages are never lost (F5a, F5b repaired). Tie: per "
+             "scene the closed graph of reachable real states (merged by digest, hence all histories of all lengths) is walked "
+             "by the model edge by edge and node by node; directly executed random histories cross-check the merging.",
+        ref='§6 C14', technique='Lean 4 proof (40-case transition table + induction over histories) + exhaustive state-graph correspondence'),
     'C15': dict(
         text="Lean theorems on the model of check_data_consistency over coercible frames: it raises iff the documented list "
              "holds (not a frame, empty, missing column, duplicated coerced rows, 0/non-0 or VV/non-VV on the same "
